@@ -40,7 +40,9 @@ class SymExprScenario(explore.Scenario):
 
     def __init__(self, keys=(0, 1, 3), nexpr=2, big=False):
         self.keys = list(keys) + ([BIG] if big else [])
-        self.exprs = ["E%d" % (i + 1) for i in range(nexpr)]
+        # E1 and E3 are equal but distinct objects (identity matters: a dict
+        # stores the object it was given); E2 is of the other kind
+        self.exprs = ["E1", "E3"] if nexpr == 2 else ["E1", "E2", "E3"][:nexpr]
         self.big = big
         self.qs = queries(big)
 
@@ -71,9 +73,9 @@ class SymExprScenario(explore.Scenario):
         w.shadow2 = {1: "EX"}
         w.place = "S1"
         if init in ("two", "loaded"):
-            b1.symbolic_expressions[3] = w.objs["E2"]
+            b1.symbolic_expressions[3] = w.objs[self.exprs[-1]]
             b1.symbolic_expressions[0] = w.objs["E1"]
-            w.shadow = {3: "E2", 0: "E1"}
+            w.shadow = {3: self.exprs[-1], 0: "E1"}
         if init == "loaded":
             self.save_load(w)
         return w
@@ -116,12 +118,13 @@ class SymExprScenario(explore.Scenario):
             out.append(["popdefault", k])
         out.append(["popitem"])
         out.append(["clear"])
-        out.append(["update", "dict", [[0, "E1"], [3, "E2"]]])
-        out.append(["update", "pairs", [[1, "E2"], [1, "E1"]]])
+        ex = self.exprs
+        out.append(["update", "dict", [[0, ex[0]], [3, ex[-1]]]])
+        out.append(["update", "pairs", [[1, ex[-1]], [1, ex[0]]]])
         out.append(["update", "dict", []])
         out.append(["assign", []])
-        out.append(["assign", [[1, "E1"]]])
-        out.append(["assign", [[3, "E1"], [0, "E2"]]])
+        out.append(["assign", [[1, ex[0]]]])
+        out.append(["assign", [[3, ex[0]], [0, ex[-1]]]])
         out.append(["assign_self"])
         out.append(["assign_other"])
         for a in (None, 0, 2):
